@@ -31,8 +31,10 @@ GLUE = {
     "C14": ["glue unverified: SessionContext::on_transport_parameters (cid authentication against the handshake, mapping decode errors to TRANSPORT_PARAMETER_ERROR)"],
     "C15": ["harness key: an instrumented OneRttKey with symbolic limits stands in for the AEAD (A-aead); ApplicationSpace calling encrypt_packet for every 1-RTT packet is glue"],
     "C16": ["bounded one-step container obligations cover histories whose container never exceeds the stated K"],
-    "C18": ["A-aead: seal/open replaced by a harness-side keyed checksum; path::secret::map reaction to control packets is out of reach"],
-    "C19": ["A-atomics: linearizability of Mutex / fetch_update / fetch_max is assumed, the sequential contract is what is proved"],
+    "C18": ["A-aead: seal/open/HMAC replaced by a harness-side recording / keyed stand-in; aws_lc_rs::constant_time::verify_slices_are_equal (FFI) is stubbed by an equality model",
+            "not under contract: the stream packet codec, control/datagram encoders (round trips timed out), path::secret::map reaction to control packets"],
+    "C19": ["A-atomics: linearizability of Mutex / fetch_update / fetch_max is assumed, the sequential contract is what is proved",
+            "A-bitvec-shift_end: bitvec 1.x BitSlice::shift_end is replaced (kani::stub) by a word-level model over the same 14-word storage ('bit i moves to i+n, vacated bits are zero'); assumed dependency contract, compared with the real function only natively (897 distances x 200 contents), not by the verifier"],
 }
 
 
